@@ -327,11 +327,24 @@ func txnRegions(p *an.Prog, m *ssa.Function) []txnRegion {
 			f := an.CallObj(c)
 			isU := an.IsMethod(f, badgerLib, "DB", "Update")
 			isV := an.IsMethod(f, badgerLib, "DB", "View")
+			args := c.Common().Args
 			if !isU && !isV {
+				// a transaction wrapper of the driver (retry on conflict, ...): the closure handed to it is the region
+				if w := c.Common().StaticCallee(); w != nil {
+					if pi, upd, ok := txnWrapperInfo(p, w); ok && pi < len(args) {
+						reg := txnRegion{Call: c, Update: upd}
+						switch x := args[pi].(type) {
+						case *ssa.MakeClosure:
+							reg.Closure, _ = x.Fn.(*ssa.Function)
+						case *ssa.Function:
+							reg.Closure = x
+						}
+						out = append(out, reg)
+					}
+				}
 				continue
 			}
 			reg := txnRegion{Call: c, Update: isU}
-			args := c.Common().Args
 			if len(args) == 2 {
 				switch x := args[1].(type) {
 				case *ssa.MakeClosure:
@@ -455,4 +468,97 @@ func isTxnHelper(p *an.Prog, h *ssa.Function) bool {
 		}
 	}
 	return false
+}
+
+// txnWrapperInfo: w is a function of the badger package with a parameter of type func(*badger.Txn) error that it
+// passes, unchanged, to db.Update / db.View (possibly several times: a retry loop). Returns the parameter's index in
+// the call's argument list and whether the transactions are read-write.
+func txnWrapperInfo(p *an.Prog, w *ssa.Function) (int, bool, bool) {
+	if w == nil || w.Pkg == nil || w.Pkg.Pkg.Path() != pkgBadger || len(w.Blocks) == 0 || p.IsTestFunc(w) {
+		return 0, false, false
+	}
+	idx := -1
+	for i, prm := range w.Params {
+		if sig, ok := prm.Type().Underlying().(*types.Signature); ok && sig.Params().Len() == 1 && sig.Results().Len() == 1 {
+			if n := namedOf(sig.Params().At(0).Type()); n != nil && n.Obj().Name() == "Txn" {
+				idx = i
+			}
+		}
+	}
+	if idx < 0 {
+		return 0, false, false
+	}
+	found, upd := false, false
+	for _, c := range an.Calls(w, false) {
+		f := an.CallObj(c)
+		isU := an.IsMethod(f, badgerLib, "DB", "Update")
+		isV := an.IsMethod(f, badgerLib, "DB", "View")
+		if (isU || isV) && len(c.Common().Args) == 2 && an.Unspill(c.Common().Args[1]) == ssa.Value(w.Params[idx]) {
+			found = true
+			upd = upd || isU
+		}
+	}
+	return idx, upd, found
+}
+
+// checkTxnWrappers: a transaction wrapper reports what the transaction reported — it returns nil only when one of its
+// db.Update/View calls succeeded, and any other return carries that call's error (a wrapper that gives up after some
+// retries and returns nil acknowledges a write that never happened).
+func checkTxnWrappers(p *an.Prog, r *an.Run) {
+	for _, w := range badgerPkgFuncs(p) {
+		if _, _, ok := txnWrapperInfo(p, w); !ok {
+			continue
+		}
+		r.Analysed(an.FuncName(w))
+		var bad []string
+		var txCalls []ssa.CallInstruction
+		var cut []an.Edge
+		for _, c := range an.Calls(w, false) {
+			f := an.CallObj(c)
+			if an.IsMethod(f, badgerLib, "DB", "Update") || an.IsMethod(f, badgerLib, "DB", "View") {
+				txCalls = append(txCalls, c)
+				cut = append(cut, an.ErrEdges(c).Succ...)
+			}
+		}
+		noSucc := an.ReachAvoiding(w, an.EdgeSet(cut))
+		an.AllInstrs(w, func(in ssa.Instruction) {
+			ret, ok := in.(*ssa.Return)
+			if !ok || len(ret.Results) == 0 || (w.Recover != nil && ret.Block() == w.Recover) {
+				return
+			}
+			res := an.RetResults(ret)
+			last := res[len(res)-1]
+			if c, isC := last.(*ssa.Const); isC && c.IsNil() {
+				if noSucc[ret.Block()] {
+					bad = append(bad, "returns nil at "+p.Pos(ret.Pos())+" although no transaction has been committed successfully (e.g. after giving up on conflicts): the caller takes a write for done that never happened")
+				}
+				return
+			}
+			if definitelyNonNilError(last) {
+				return
+			}
+			// otherwise the value must be a transaction call's own result
+			d := p.Derives(0, last)
+			fromTx := false
+			for _, tc := range txCalls {
+				if v := tc.Value(); v != nil && d.HasValue(v) {
+					fromTx = true
+				}
+			}
+			if !fromTx {
+				bad = append(bad, "the value returned at "+p.Pos(ret.Pos())+" is not the transaction's own result")
+			}
+			// and no nil constant may be merged into it on a path without a successful transaction
+			for _, nd := range d.Nodes {
+				if ph, ok := nd.(*ssa.Phi); ok {
+					for i, e := range ph.Edges {
+						if c, isC := e.(*ssa.Const); isC && c.IsNil() && noSucc[ph.Block().Preds[i]] && len(ph.Block().Preds[i].Instrs) > 0 && ph.Block().Preds[i] != w.Blocks[0] {
+							bad = append(bad, "a nil result can be returned at "+p.Pos(ret.Pos())+" without a successful transaction")
+						}
+					}
+				}
+			}
+		})
+		r.Check(len(bad) == 0, "one-txn", "wrapper:"+an.FuncName(w), w.Pos(), "the wrapper returns the transaction's own outcome", "%s", strings.Join(dedup(bad), "; "))
+	}
 }
